@@ -14,6 +14,19 @@
 //!    runs selector-centred histories with the byte / file / open-file limits in play and asks the
 //!    real selector again *inside* a running compaction (one compaction in flight), with the nested
 //!    choice performed for real.
+//!  * the tree steps as functions: at EVERY performed compaction step and EVERY flush of both
+//!    streams (also the nested compaction of `selhist` and the step it is nested in) one request
+//!    `kvs apply|move|ingest …` carries the tree before (per level, in the order the version holds
+//!    the files — `verif_dump` does not sort — id, key range, timestamps, the (key, timestamp) of
+//!    every entry), the compaction as the real selector returned it and the output files as the
+//!    real tree after holds them; the Lean functions `applyCompaction` / `applyTrivialMove` /
+//!    `ingest` must produce the tree after, level by level, file by file, in the order the real
+//!    `Version` holds them (level 0 included: compared in the internal order).  The model's line
+//!    also carries the Boolean forms of the theorems' hypotheses (`Chosen t c`, `OutsOk t c outs`)
+//!    on that very step; the implementation's line says `chosen=1 outsok=1`.
+//!    The outputs of a step are read off the tree after: the files of the output level whose id is
+//!    not the id of a file of that level that is no input (no positions are used; an output that
+//!    re-creates an input byte for byte has that input's id and is an output).
 use crate::common::*;
 
 fn tainted(v: Verdict, taint: &Option<String>) -> Verdict {
@@ -213,8 +226,10 @@ pub fn run_history(rec: &mut Recorder, seed: u64, hidx: u64, len: usize, nkeys: 
     let mut taint: Option<String> = None;
     let so = SelOpts { mof: 1 << 19, mcb: 1 << 29, mcf: cfg.max_compaction_files, mand_files: cfg.l0_mandatory_files, mand_bytes: 1 << 26 };
     let mut prev: Option<StateDump> = sim.dump().ok();
+    sim.record_applied = true;
     for (step, op) in ops.iter().enumerate() {
         let tag = format!("h{}s{}:{}", hidx, step, op.render());
+        let ord0 = sim.edit_ordinal;
         if let Op::Reopen = op {
             if taint.is_none() {
                 if let Ok(d) = sim.dump() {
@@ -358,6 +373,13 @@ pub fn run_history(rec: &mut Recorder, seed: u64, hidx: u64, len: usize, nkeys: 
                 }
             }
         }
+        // the tree steps of this operation as functions (flushes and performed compaction steps,
+        // in the order they happened)
+        for a in std::mem::take(&mut sim.applied) {
+            let events = &sim.sst_events;
+            let readded = |f: &FileDump| events.get(&hex(&f.setsum)).map(|evs| evs.iter().any(|e| e.0 > ord0 && e.1 == '+')).unwrap_or(false);
+            apply_case(rec, &a.before, a.compaction.as_ref(), &a.after, &taint, &tag, Some(&readded));
+        }
         prev = Some(d);
     }
     rec.add("flushes", sim.flushes);
@@ -366,6 +388,188 @@ pub fn run_history(rec: &mut Recorder, seed: u64, hidx: u64, len: usize, nkeys: 
     rec.add("observations_inside_flush_or_compaction", sim.probes_run);
     rec.add("stalled_with_nothing_selectable", sim.stalled_unselectable);
     sim.close();
+}
+
+
+// ===================================================== the tree steps as functions ===============
+
+fn short_id(f: &FileDump) -> String {
+    hex(&f.setsum)[..12].to_string()
+}
+
+/// `L<level>:<id>:<first>:<last>:<smallest ts>:<biggest ts>:<key@ts!,…|->` (the entries without values)
+fn apply_file(level: usize, f: &FileDump) -> String {
+    let es = if f.entries.is_empty() { "-".to_string() } else { f.entries.iter().map(|e| format!("{}@{}!", hex(&e.0), e.1)).collect::<Vec<_>>().join(",") };
+    format!("L{}:{}:{}:{}:{}:{}:{}", level, short_id(f), hex(&f.first_key), hex(&f.last_key), f.smallest_ts, f.biggest_ts, es)
+}
+
+/// `L0=<id,id,…|-> L1=… …`: per level the file ids in the order the version holds them
+pub fn render_tree_ids(levels: &[Vec<FileDump>]) -> String {
+    levels.iter().enumerate().map(|(i, l)| format!("L{}={}", i, if l.is_empty() { "-".to_string() } else { l.iter().map(short_id).collect::<Vec<_>>().join(",") })).collect::<Vec<_>>().join(" ")
+}
+
+/// One performed tree step: `c = None` a flush (`Version::ingest`), else the compaction the real
+/// selector returned (`Version::apply_compaction`; one input = `apply_moving_compaction`).
+/// `readded`: for an output that carries the id of an input, did the manifest edit of this step add
+/// that name (`None`: the caller has no manifest history)?
+pub fn apply_case(rec: &mut Recorder, before: &[Vec<FileDump>], c: Option<&lsmtk::verif::ChosenCompaction>, after: &[Vec<FileDump>], taint: &Option<String>, tag: &str, readded: Option<&dyn Fn(&FileDump) -> bool>) {
+    let mut req;
+    let mut fails: Vec<(String, String)> = vec![];
+    let mut nontrivial = false;
+    let ids = |l: &[FileDump]| -> Vec<String> {
+        let mut v: Vec<String> = l.iter().map(short_id).collect();
+        v.sort();
+        v
+    };
+    match c {
+        None => {
+            // the new file: the file of level 0 after whose id level 0 before does not hold
+            let b0: Vec<String> = before.first().map(|l| l.iter().map(short_id).collect()).unwrap_or_default();
+            let new: Vec<&FileDump> = after.first().map(|l| l.iter().filter(|f| !b0.contains(&short_id(f))).collect()).unwrap_or_default();
+            req = format!("kvs ingest {} ::", before.len());
+            for (i, l) in before.iter().enumerate() {
+                for f in l {
+                    req.push_str(&format!(" {}", apply_file(i, f)));
+                }
+            }
+            req.push_str(" ::");
+            for f in &new {
+                req.push_str(&format!(" {}", apply_file(0, f)));
+            }
+            rec.count("apply.ingest");
+            if !b0.is_empty() {
+                rec.count("apply.ingest.level0_not_empty");
+                nontrivial = true;
+            }
+            if new.len() != 1 {
+                fails.push(("apply-lost-or-invented-file".into(), format!("a flush added {} files to level 0", new.len())));
+            }
+            for i in 0..before.len().max(after.len()) {
+                let mut want = before.get(i).map(|l| ids(l)).unwrap_or_default();
+                if i == 0 {
+                    want.extend(new.iter().map(|f| short_id(f)));
+                    want.sort();
+                }
+                let got = after.get(i).map(|l| ids(l)).unwrap_or_default();
+                if want != got {
+                    fails.push(("apply-lost-or-invented-file".into(), format!("level {} after a flush holds {:?}, before + new file = {:?}", i, got, want)));
+                }
+            }
+        }
+        Some(c) => {
+            let ins: Vec<String> = c.inputs.iter().map(|d| hex(d)[..12].to_string()).collect();
+            let up = c.upper_level;
+            let kept_up: Vec<String> = before.get(up).map(|l| l.iter().map(short_id).filter(|i| !ins.contains(i)).collect()).unwrap_or_default();
+            let outs: Vec<&FileDump> = after.get(up).map(|l| l.iter().filter(|f| !kept_up.contains(&short_id(f))).collect()).unwrap_or_default();
+            let verb = if ins.len() == 1 { "move" } else { "apply" };
+            req = format!("kvs {} {} {} {} {} {} {} ::", verb, before.len(), c.lower_level, up, hex(&c.first_key), hex(&c.last_key), if ins.is_empty() { "-".to_string() } else { ins.join(",") });
+            for (i, l) in before.iter().enumerate() {
+                for f in l {
+                    req.push_str(&format!(" {}", apply_file(i, f)));
+                }
+            }
+            req.push_str(" ::");
+            for f in &outs {
+                req.push_str(&format!(" {}", apply_file(up, f)));
+            }
+            rec.count(if ins.len() == 1 { "apply.move" } else if up == lsmtk::NUM_LEVELS - 1 { "apply.gc" } else { "apply.merge" });
+            // ---- oracle: ids as multisets, level by level
+            for i in 0..before.len().max(after.len()) {
+                let mut want: Vec<String> = before.get(i).map(|l| l.iter().map(short_id).collect()).unwrap_or_default();
+                if c.lower_level <= i && i < up {
+                    want.retain(|x| !ins.contains(x));
+                } else if i == up {
+                    want.retain(|x| !ins.contains(x));
+                    want.extend(outs.iter().map(|f| short_id(f)));
+                }
+                want.sort();
+                let got = after.get(i).map(|l| ids(l)).unwrap_or_default();
+                if want != got {
+                    fails.push(("apply-lost-or-invented-file".into(), format!("level {} after holds {:?}, before - inputs + outputs = {:?}", i, got, want)));
+                }
+            }
+            let before_ids: Vec<String> = before.iter().flat_map(|l| l.iter().map(short_id)).collect();
+            for i in &ins {
+                if !before_ids.contains(i) {
+                    fails.push(("apply-lost-or-invented-file".into(), format!("input {} is no file of the tree before", i)));
+                }
+            }
+            let mut recreated = 0;
+            for o in &outs {
+                let id = short_id(o);
+                if ins.contains(&id) && ins.len() > 1 {
+                    recreated += 1;
+                    if let Some(f) = readded {
+                        if !f(o) {
+                            fails.push(("apply-lost-or-invented-file".into(), format!("input {} is still in the output level and the manifest edit of the step did not add it", id)));
+                        }
+                    }
+                } else if before_ids.contains(&id) && !ins.contains(&id) {
+                    fails.push(("apply-lost-or-invented-file".into(), format!("output {} is a file of another level that is no input", id)));
+                }
+            }
+            if recreated > 0 {
+                rec.count("apply.output_recreates_an_input_byte_for_byte");
+            }
+            // ---- what the step exercises
+            let in_levels: std::collections::BTreeSet<usize> = before.iter().enumerate().filter(|(_, l)| l.iter().any(|f| ins.contains(&short_id(f)))).map(|(i, _)| i).collect();
+            if ins.len() >= 2 && in_levels.len() >= 2 {
+                rec.count("apply.nontrivial.inputs_at_two_or_more_levels");
+                nontrivial = true;
+            }
+            if in_levels.len() >= 3 {
+                rec.count("apply.nontrivial.inputs_at_three_or_more_levels");
+            }
+            if outs.len() >= 2 {
+                rec.count("apply.nontrivial.two_or_more_outputs");
+                nontrivial = true;
+            }
+            if outs.is_empty() {
+                rec.count("apply.nontrivial.no_output");
+                nontrivial = true;
+            }
+            if let Some(l) = after.get(up) {
+                let pos: Vec<usize> = l.iter().enumerate().filter(|(_, f)| !kept_up.contains(&short_id(f))).map(|(i, _)| i).collect();
+                let (left, right) = match (pos.first(), pos.last()) {
+                    (Some(a), Some(b)) => (*a > 0, *b + 1 < l.len()),
+                    _ => (false, false),
+                };
+                if left && right {
+                    rec.count("apply.nontrivial.kept_file_on_each_side_of_the_outputs");
+                    nontrivial = true;
+                } else if left || right {
+                    rec.count("apply.nontrivial.kept_file_on_one_side_of_the_outputs");
+                    nontrivial = true;
+                }
+            }
+            if before.get(up).map(|l| l.iter().any(|f| ins.contains(&short_id(f)))).unwrap_or(false) {
+                rec.count("apply.nontrivial.output_level_loses_inputs_by_position");
+            }
+            if (c.lower_level..up).any(|i| before.get(i).map(|l| l.iter().any(|f| !ins.contains(&short_id(f)))).unwrap_or(false) && before[i].iter().any(|f| ins.contains(&short_id(f)))) {
+                rec.count("apply.nontrivial.lower_level_keeps_files_next_to_inputs");
+                nontrivial = true;
+            }
+        }
+    }
+    // ---- oracle: every level below level 0 of the tree after sorted by key, ranges at most touching
+    for (i, l) in after.iter().enumerate().skip(1) {
+        for (k, f) in l.iter().enumerate() {
+            if f.first_key > f.last_key || l[k + 1..].iter().any(|g| f.last_key > g.first_key || f.first_key > g.first_key) {
+                fails.push(("apply-level-unsorted".into(), format!("level {} after: {}", i, l.iter().map(|f| format!("{}[{}..{}]", short_id(f), hex(&f.first_key), hex(&f.last_key))).collect::<Vec<_>>().join(" "))));
+                break;
+            }
+        }
+    }
+    if nontrivial {
+        rec.count("apply.nontrivial");
+    }
+    let v = match fails.into_iter().next() {
+        None => Verdict::Ok,
+        Some((class, detail)) => Verdict::Fail { class, detail: format!("{} {}", tag, detail) },
+    };
+    let obs = format!("{} chosen=1 outsok=1", render_tree_ids(after));
+    let h = fnv(req.as_bytes());
+    rec.case(&req, &obs, tainted_fail(v, taint), if nontrivial { Some(h) } else { None });
 }
 
 // ===================================================== the selector as a function ===============
@@ -656,13 +860,19 @@ struct Inside {
     status: Option<(Vec<Vec<SelF>>, bool, usize)>,
     /// the nested selection, performed for real: `None` = not attempted
     nested: Option<Result<Option<lsmtk::verif::ChosenCompaction>, String>>,
+    /// the tree (with entries) the nested compaction was chosen in and the tree after it
+    nested_trees: Option<(Vec<Vec<FileDump>>, Vec<Vec<FileDump>>)>,
+    /// the tree before and after the outer compaction was applied (after the nested one, if any)
+    trees: Option<(Vec<Vec<FileDump>>, Vec<Vec<FileDump>>)>,
 }
 
 /// one single-stepped selection + compaction.  With `nest`, a second selection is made (and
 /// performed) from inside the first compaction, before its manifest edit: the selector then runs
 /// with one compaction in flight.
-fn sel_compact_step(kvs: &lsmtk::KeyValueStore, nest: bool) -> (Vec<Vec<SelF>>, Result<(), String>, Option<lsmtk::verif::ChosenCompaction>, Inside) {
+fn sel_compact_step(kvs: &lsmtk::KeyValueStore, nest: bool, root: &str, cache: &EntCache) -> (Vec<Vec<SelF>>, Result<(), String>, Option<lsmtk::verif::ChosenCompaction>, Inside) {
     let before = sel_levels_of_meta(&kvs.verif_tree().verif_dump());
+    let before_d = levels_cached(kvs, root, cache).ok();
+    let (root2, cache2) = (root.to_string(), cache.clone());
     let sink = std::rc::Rc::new(std::cell::RefCell::new(Inside::default()));
     let kvs_ptr = kvs as *const lsmtk::KeyValueStore;
     let sink2 = sink.clone();
@@ -683,10 +893,16 @@ fn sel_compact_step(kvs: &lsmtk::KeyValueStore, nest: bool) -> (Vec<Vec<SelF>>, 
         out.status = Some((levels, selectable, n));
         if nest {
             // the probe is not re-entered: `verif::probe` takes the observer out while it runs
+            let t0 = levels_cached(kvs, &root2, &cache2).ok();
             lsmtk::verif::set_single_step(Some(1));
             let r = kvs.compaction_thread();
             lsmtk::verif::set_single_step(Some(0));
             let c2 = lsmtk::verif::take_chosen().into_iter().next();
+            if let (Ok(_), Some(_), Some(t0)) = (&r, &c2, t0) {
+                if let Ok(t1) = levels_cached(kvs, &root2, &cache2) {
+                    out.nested_trees = Some((t0, t1));
+                }
+            }
             out.nested = Some(r.map(|_| c2).map_err(|e| err_text(&e)));
         }
     })));
@@ -701,6 +917,16 @@ fn sel_compact_step(kvs: &lsmtk::KeyValueStore, nest: bool) -> (Vec<Vec<SelF>>, 
     };
     if inside.first.is_none() {
         inside.status = None;
+    }
+    if let (Ok(_), Some(_), Some(b)) = (&r, &chosen, before_d) {
+        // the outer compaction is applied to the tree the nested one left
+        let b = match &inside.nested_trees {
+            Some((_, t1)) => t1.clone(),
+            None => b,
+        };
+        if let Ok(a) = levels_cached(kvs, root, cache) {
+            inside.trees = Some((b, a));
+        }
     }
     (before, r.map_err(|e| format!("compaction-error:{}", err_text(&e))), chosen, inside)
 }
@@ -742,6 +968,7 @@ fn run_sel_history(rec: &mut Recorder, seed: u64, h: u64, len: usize) {
     let mut oracle: std::collections::BTreeMap<Vec<u8>, Vec<u8>> = Default::default();
     let mut counter = 0u64;
     let mut moves_seen = 0u64;
+    let cache: EntCache = Default::default();
     'steps: for step in 0..len {
         let tag = format!("sel-history {} step {}", h, step);
         let r = rng.below(100);
@@ -783,11 +1010,15 @@ fn run_sel_history(rec: &mut Recorder, seed: u64, h: u64, len: usize) {
                     let (stall, _, _) = kvs.verif_tree().verif_status();
                     if !mem.is_empty() && !stall {
                         kvs.verif_request_flush();
+                        let t0 = levels_cached(&kvs, &root, &cache).ok();
                         lsmtk::verif::set_single_step(Some(0));
                         let r = kvs.memtable_thread();
                         lsmtk::verif::set_single_step(None);
                         r.map_err(|e| format!("flush-error:{}", err_text(&e)))?;
                         rec.count("selhist.flush");
+                        if let (Some(t0), Ok(t1)) = (t0, levels_cached(&kvs, &root, &cache)) {
+                            apply_case(rec, &t0, None, &t1, &None, &tag, None);
+                        }
                         flushed = true;
                     } else if stall {
                         flushed = true; // let the compaction loop relieve the stall
@@ -798,7 +1029,7 @@ fn run_sel_history(rec: &mut Recorder, seed: u64, h: u64, len: usize) {
                 // withheld now and then, so that level 0 holds more than one file when the loop runs
                 let steps = if drain { if rng.chance(1, 3) { 0 } else { 24 } } else { rng.range(1, 4) };
                 for _ in 0..steps {
-                    let (before, res, chosen, inside) = sel_compact_step(&kvs, nest);
+                    let (before, res, chosen, inside) = sel_compact_step(&kvs, nest, &root, &cache);
                     let v = select_oracle(&so, &before, &[], chosen.as_ref(), &tag);
                     // trivial moves dominate (a flushed file moves down alone while there is room):
                     // every third of them is compared here, every one in the store histories above
@@ -837,6 +1068,18 @@ fn run_sel_history(rec: &mut Recorder, seed: u64, h: u64, len: usize) {
                         }
                     }
                     res?;
+                    // the tree steps as functions: the nested compaction (performed first), then
+                    // the compaction it was nested in, applied to the tree the nested one left
+                    if let (Some(Ok(Some(c2))), Some((t0, t1))) = (&inside.nested, &inside.nested_trees) {
+                        apply_case(rec, t0, Some(c2), t1, &None, &tag, None);
+                        rec.count("selhist.apply.nested");
+                    }
+                    if let (Some(c1), Some((t0, t1))) = (&chosen, &inside.trees) {
+                        apply_case(rec, t0, Some(c1), t1, &None, &tag, None);
+                        if inside.nested_trees.is_some() {
+                            rec.count("selhist.apply.on_the_tree_a_nested_compaction_left");
+                        }
+                    }
                     if chosen.is_none() {
                         break;
                     }
@@ -890,7 +1133,7 @@ pub fn run(args: &Args) {
         run_sel_history(&mut rec, args.seed, h, shlen);
     }
     rec.finish(
-        "seeded store histories (put/del/batch/flush/compaction steps/reopen; keys from a 4-12 key adversarial alphabet, ~30% tombstones, options grid memtable x file size x block size x L0 thresholds x max compaction files x gc versions x manifest rollover ratio) on the real KeyValueStore, flush and compaction loops single-stepped; after every op: reads of every key vs. sequential map and vs. the Lean model on the dumped state, invariants I1/I2 on the dumped state, closedness of each chosen compaction; the selector as a function (Lean nextCompaction vs Version::next_compaction: levels, key range, input ids in order) at every compaction step and, as is_some, on every state; selhist: selector-centred histories (options grid stall/mandatory thresholds x max_compaction_files at/below/above the stall threshold x max_compaction_bytes x max_open_files x memtable x file size) with the selection compared at every compaction step, again with one compaction in flight (asked inside the running compaction, the nested choice performed) and reads checked against a sequential map; f64: the level-curve / level-factor tables and seeded (level, score) pairs of ceil(score as f64 * level_factor) as i64; non-trivial = a read step at which some key has versions in >= 2 components, or a selection on a tree of >= 3 files; distinct by dumped state",
+        "seeded store histories (put/del/batch/flush/compaction steps/reopen; keys from a 4-12 key adversarial alphabet, ~30% tombstones, options grid memtable x file size x block size x L0 thresholds x max compaction files x gc versions x manifest rollover ratio) on the real KeyValueStore, flush and compaction loops single-stepped; after every op: reads of every key vs. sequential map and vs. the Lean model on the dumped state, invariants I1/I2 on the dumped state, closedness of each chosen compaction; the selector as a function (Lean nextCompaction vs Version::next_compaction: levels, key range, input ids in order) at every compaction step and, as is_some, on every state; selhist: selector-centred histories (options grid stall/mandatory thresholds x max_compaction_files at/below/above the stall threshold x max_compaction_bytes x max_open_files x memtable x file size) with the selection compared at every compaction step, again with one compaction in flight (asked inside the running compaction, the nested choice performed) and reads checked against a sequential map; f64: the level-curve / level-factor tables and seeded (level, score) pairs of ceil(score as f64 * level_factor) as i64; tree steps: at every performed compaction step and every flush of both kinds of history (the nested compaction of selhist and the step it is nested in included) the Lean functions applyCompaction / applyTrivialMove / ingest on the tree before (per level in the order the version holds the files), the compaction the real selector returned and the outputs read off the real tree after vs the real tree after, level by level, file by file, in the version's order, with the Boolean forms of Chosen and OutsOk evaluated on the step; oracle on the ids alone: after = before - inputs + outputs level by level as multisets, an output carrying an input's id was added by the step's manifest edit (store histories), every level >= 1 after sorted by key with at most touching ranges; non-trivial = a read step at which some key has versions in >= 2 components, or a selection on a tree of >= 3 files; distinct by dumped state; a tree step is non-trivial when it has inputs at >= 2 levels, >= 2 or 0 outputs, a kept file next to the outputs in the output level or next to the inputs in a lower level, or (flush) a non-empty level 0",
         &[],
     );
 }
